@@ -356,7 +356,8 @@ def r7_handlers(chk: Check) -> None:
     fin = [n for n in walk_body(ex.node) if isinstance(n, ast.Try) and n.finalbody and any(last_attr(c) == "shutdown" for s in n.finalbody for c in calls(s))]
     chk.decide(bool(fin), "C16.R7", ex, "handlers are shut down in finally", "report writers are not finalised when the run ends abnormally: files stay truncated", ex.loc())
     sh = ex.module.functions.get("_execute.shutdown")
-    chk.decide(sh is not None and any(isinstance(n, ast.For) and dotted(n.iter) == "handlers" for n in walk_body(sh.node)), "C16.R7", ex, "shutdown() visits every handler", "some handlers are never shut down", ex.loc())
+    hv = set(defined_by(ex, "$v = initialize_handlers($_)"))
+    chk.decide(sh is not None and any(isinstance(n, ast.For) and dotted(n.iter) in hv for n in walk_body(sh.node)), "C16.R7", ex, "shutdown() visits every handler", "some handlers are never shut down", ex.loc())
     cw = P.func(f"{CAS}:CassetteWriter.shutdown")
     t = unparse(cw.node, 2000)
     chk.expect("Finalize()" in t and "_stop_worker" in t, "C16.R7", cw, "shutdown sends Finalize and joins the writer", "the writer thread is not told to finish / not joined", cw.loc())
